@@ -53,6 +53,7 @@ class Collector:
     def __init__(self, run: Run):
         self.run = run
         self.drift: dict = {}
+        self.reps: dict = {}   # (set-up, mutation) -> an enumerated case in which the mutation was executed
         self.stats = {"cases": 0, "return": 0, "raise": 0, "shadowed": 0, "notfound": 0, "pmut": 0, "setups": set(), "shadow_differs": 0, "clauses": {}}
 
     def take(self, case: dict, res: dict):
@@ -73,6 +74,8 @@ class Collector:
         st["shadow_differs"] += bool(res.get("shadow_differs"))
         if res["nontrivial"]:
             run.nontrivial_case(res["key"])
+        if res["key"] and (case["pmut"] == "none" or (case["ref"]["top"] == "R" and case["ref"]["K"] >= 1)):
+            self.reps.setdefault((json.dumps(case["setup"], sort_keys=True), case["pmut"]), case)
         if res["sample"] and res["nontrivial"]:
             run.sample(res["sample"])
         for sig, what, c in res["viol"]:
@@ -121,9 +124,20 @@ def _replay(run: Run, col: Collector, pool, path: str):
         rec = json.load(fh)
     print(rec["what"])
     stored = rec["case"]["tlc"]
+    direct = rec["case"].get("direct") == "sys_path"
     res = tlc.must(tlc.run("DynImport", "DynImport_quick.cfg", workers=4, timeout=600))
     run.add_tlc(res)
     found = [c for c in res.cases if case_key(c) == case_key(stored)]
+    if direct:
+        from gverif.props.x05_check import check_syspath  # noqa: PLC0415
+
+        for sig, what, c in check_syspath((found or [stored])[0], _WORKDIR):
+            if sig == "die":
+                die("X05: " + what)
+            run.violation(sig, what, c)
+        run.evaluated(3)
+        run.replayed(3)
+        return
     for case, r in _replay_chunks(pool, found or [stored]):
         col.take(case, r)
 
@@ -186,6 +200,20 @@ def _full(run: Run, col: Collector, pool, tier: str):
         die(f"X05: DynImport_defect.cfg violates {sorted(set(r_defect.violated))}")
     for case, r in _replay_chunks(pool, r_defect.cases):
         col.take(case, r)
+    # ---- griffe.sys_path used directly (the EnterSysPath / ExitSysPath steps on their own), 3 ways of leaving the block
+    from gverif.props.x05_check import check_syspath  # noqa: PLC0415
+
+    for _, case in sorted(col.reps.items()):
+        for sig, what, c in check_syspath(case, _WORKDIR):
+            if sig == "die":
+                die("X05: " + what)
+            col.stats["clauses"][sig["clause"]] = col.stats["clauses"].get(sig["clause"], 0) + 1
+            run.violation(sig, what, c)
+        run.evaluated(3)
+        run.replayed(3)
+    col.stats["sys_path_direct"] = len(col.reps) * 3
+    if len(col.reps) < 15:
+        die(f"X05: only {len(col.reps)} (set-up, mutation) representatives for the direct sys_path check")
     # ---- vacuity
     st = col.stats
     want_setups = 11
